@@ -27,6 +27,9 @@ from hpstatic.poly import Canon
 from hpstatic.terms import (sym, intern, show, subterms, calls_in, NONE, num, kw,
                             atoms_of)
 from hpstatic.xrnorm import atom_rewrite
+from .common import path_has, norm_cond
+
+MUTATION_TARGETS = {'holopy/inference/model.py': ['_lnposterior', '_lnprior', '_lnlike', '_residuals', '_find_noise', '_find_optics', '_forward', '__init__'], 'holopy/core/utils.py': ['evaluate']}
 
 LEVEL = 'other'
 META = dict(
@@ -143,13 +146,13 @@ def prior(check, prog):
                   'an InvalidScatterer while building the scatterer gives -inf', loc,
                   fail_detail='-inf returns: %s' % [[show(t)[:60] for t, p in o.cond]
                                                    for o in inf_rets])
-    cons = [o for o in inf_rets if any(
-        t[0] == 'un' and t[1] == 'not' and calls_in(t[2], 'check') and pol
-        for t, pol in o.cond)]
+    cons = [o for o in inf_rets if path_has(
+        o.cond, lambda t: t[0] == 'call' and isinstance(t[1], tuple) and
+        t[1][0] == 'attr' and t[1][2] == 'check', pol=False)]
     okc = len(cons) == 1
     if okc:
-        t = [t for t, pol in cons[0].cond if t[0] == 'un'][0]
-        call = calls_in(t[2], 'check')[0]
+        t = [t for t, pol in norm_cond(cons[0].cond) if not pol and t[0] == 'call'][0]
+        call = t
         okc = call[1][0] == 'attr' and call[1][1][0] == 'elem' and \
             call[1][1][1] == ('attr', sym('self'), 'constraints') and \
             bool(calls_in(call[2][0], '_scatterer_from_parameters'))
